@@ -16,8 +16,8 @@ func init() {
 		Decides: "that every send to a client session's outbound queue in router and router/auth is non-blocking (select with default), the two reviewed blocking sends of the attach goroutine to its own client excepted; " +
 			"that code confined to the dealer or broker goroutine contains no blocking hand-off at all (no action-channel send, no send to the meta peer); that the wait-for graph between the router's goroutine " +
 			"roles (router/realm/broker/dealer loops, session handlers, meta-session handler, meta-procedure handler, attach, call timer), built from every blocking send/receive/Wait reachable in each role, is acyclic; " +
-			"that the RESULT retry of dealer.yield is re-entered only while the dealer asks for it and stops asking once the deadline passed; that outbound queues are created with the configured (defaulted) size; that a CANCEL is answered at once unless the callee was actually interrupted in kill mode.",
-		NotDecided: "latency bounds, scheduler fairness, user callbacks (Authorizer, PublishFilter) run under a session lock. Known finding D26: the meta-session handler can reach the RESULT retry wait while other roles wait on it.",
+			"that the RESULT retry of dealer.yield is re-entered only while the dealer asks for it and stops asking once the deadline passed; that the meta-session handler, on which the other roles wait, never enters that retry (D26, repaired: no retry for the session with the meta session id); that outbound queues are created with the configured (defaulted) size; that a CANCEL is answered at once unless the callee was actually interrupted in kill mode.",
+		NotDecided: "latency bounds, scheduler fairness, user callbacks (Authorizer, PublishFilter) run under a session lock.",
 		Run: runC07,
 	})
 }
@@ -271,10 +271,24 @@ func runC07(c *Ctx) {
 			continue
 		}
 		reaches := roles[role][yield]
+		if reaches && role == "meta-handler" {
+			// the meta session's handler runs dealer.yield, but never its retry loop: the loop is entered only while
+			// syncYield asks again (C07.R3), syncYield asks only when retrying is allowed (C07.R3), and yield allows
+			// it for every callee except the session with the meta session's id — which is the session this role serves
+			y := dlr + "yield"
+			ok := true
+			ok = c.localAssigned(r2, y, "canRetry", `^NOT \(%callee\.ID == 1\)$|^\(%callee\.ID != 1\)$`) && ok
+			c.Has(r2, y+"$1", "the first attempt passes that permission on", `^call:router\.\(\*dealer\)\.syncYield\(\^d, \^callee, \^msg, \^progress, \^canRetry\)$`, 1)
+			c.Has(r2, rlm+"createMetaSession", "the meta session is created with the meta session id", `^store:%r\.&metaSess=call:wamp\.NewSession\(call:transport\.LinkedPeers\(\)#1, 1, `, 1)
+			c.Has(r2, rlm+"createMetaSession$1", "the meta-session handler serves exactly that session", `^call:router\.\(\*realm\)\.handleInboundMessages\(\^r, \^r\.metaSess\)$`, 1)
+			c.R.Check(ok, r2, role, "role that others wait on cannot reach the client-dependent RESULT retry wait (dealer.yield)", c.P.FuncPos(yield),
+				"dealer.yield does not disable the RESULT retry for the meta session: the meta-session handler, on which every other session's joins, leaves and registrations wait, would retry for up to sendResultDeadline behind one caller that does not drain its queue")
+			continue
+		}
 		c.R.Check(!reaches, r2, role, "role that others wait on cannot reach the client-dependent RESULT retry wait (dealer.yield)", c.P.FuncPos(yield),
 			"role "+role+" is waited on by other roles and can execute dealer.yield's retry loop, whose duration (up to sendResultDeadline) depends on a client draining its queue")
 	}
-	c.R.Floor(r2, 8)
+	c.R.Floor(r2, 11)
 
 	const r5 = "C07.R5 a cancel is answered at once unless the callee was actually interrupted in kill mode"
 	ruleCancelMachine(c, r5)
